@@ -97,6 +97,10 @@ func genC19(r *h.Rand, tier string) []h.Case {
 			}
 			cs = append(cs, h.Case{Stream: "multi", Cmd: sx.L(sx.A("multi"), loaders, qs), NonTrivial: nl > 1, Tags: []string{"multi"}})
 		case 3:
+			if i%10 == 3 {
+				cs = append(cs, genMultiTree(r))
+				continue
+			}
 			nl := 2 + r.Intn(2)
 			paths := []string{"/a.jet", "/b.jet", "/d/c.jet"}
 			c := sx.L(sx.A("multi-history"), sx.I(int64(nl)))
@@ -144,6 +148,48 @@ func genC19(r *h.Rand, tier string) []h.Case {
 		}
 	}
 	return cs
+}
+
+// a forest: in-memory leaves and Multi loaders nested into one another (a Multi only into one with a
+// smaller index), stacks and leaves edited while every Multi is queried
+func genMultiTree(r *h.Rand) h.Case {
+	nl, nm := 2+r.Intn(3), 2+r.Intn(2)
+	paths := []string{"/a.jet", "/b.jet", "/d/c.jet"}
+	c := sx.L(sx.A("multi-tree"), sx.I(int64(nl)), sx.I(int64(nm)))
+	leaf := func() *sx.Sexp { return sx.L(sx.A("leaf"), sx.I(int64(r.Intn(nl)))) }
+	// an initial shape: multi 0 holds a leaf and multi 1
+	c.Add(sx.L(sx.A("add"), sx.I(0), leaf()))
+	c.Add(sx.L(sx.A("add"), sx.I(0), sx.L(sx.A("multi"), sx.I(1))))
+	ver := 0
+	nops := 8 + r.Intn(14)
+	for k := 0; k < nops; k++ {
+		p := r.Pick(paths)
+		switch pickW(r, "set", 4, "del", 1, "add", 3, "clear", 1, "exists", 3, "open", 5) {
+		case "set":
+			ver++
+			c.Add(sx.L(sx.A("set"), sx.I(int64(r.Intn(nl))), sx.S(r.Pick([]string{p, p[1:]})), sx.S(fmt.Sprintf("v%d", ver))))
+		case "del":
+			c.Add(sx.L(sx.A("del"), sx.I(int64(r.Intn(nl))), sx.S(p)))
+		case "add":
+			m := r.Intn(nm)
+			if m+1 < nm && r.Chance(35) {
+				c.Add(sx.L(sx.A("add"), sx.I(int64(m)), sx.L(sx.A("multi"), sx.I(int64(m+1+r.Intn(nm-m-1))))))
+			} else {
+				c.Add(sx.L(sx.A("add"), sx.I(int64(m)), leaf()))
+			}
+		case "clear":
+			c.Add(sx.L(sx.A("clear"), sx.I(int64(r.Intn(nm)))))
+		case "exists":
+			c.Add(sx.L(sx.A("exists"), sx.I(int64(r.Intn(nm))), sx.S(p)))
+		default:
+			c.Add(sx.L(sx.A("open"), sx.I(int64(r.Intn(nm))), sx.S(p)))
+		}
+	}
+	for _, p := range paths {
+		c.Add(sx.L(sx.A("open"), sx.I(0), sx.S(p)))
+		c.Add(sx.L(sx.A("exists"), sx.I(0), sx.S(p)))
+	}
+	return h.Case{Stream: "multi-tree", Cmd: c, NonTrivial: true, Tags: []string{"multi-tree"}}
 }
 
 func refNormalize(p string) string { return path.Join("/", filepath.ToSlash(p)) }
@@ -268,6 +314,95 @@ func init() {
 						out.Add(sx.S(string(b)))
 						if (!has || string(b) != want) && fail == "" {
 							fail = fmt.Sprintf("Multi.Open(%s) returned %q, the first stacked loader that has the path holds %q (exists=%v)", p, b, want, has)
+						}
+					}
+				}
+			}
+		}
+		return out, fail
+	})
+	h.RegisterImpl("multi-tree", func(cmd, _ *sx.Sexp) (*sx.Sexp, string) {
+		nl, nm := atoi(cmd.Xs[1].A), atoi(cmd.Xs[2].A)
+		var ims []*jet.InMemLoader
+		var refs []map[string]string
+		for i := 0; i < nl; i++ {
+			ims = append(ims, jet.NewInMemLoader())
+			refs = append(refs, map[string]string{})
+		}
+		type child struct {
+			multi bool
+			i     int
+		}
+		var ms []*multi.Multi
+		stacks := make([][]child, nm)
+		for i := 0; i < nm; i++ {
+			ms = append(ms, multi.NewLoader())
+		}
+		// the rule of the property, by direct recursion over the stacks as they are now
+		var lookup func(m int, p string) (string, bool)
+		lookup = func(m int, p string) (string, bool) {
+			for _, c := range stacks[m] {
+				if c.multi {
+					if v, ok := lookup(c.i, p); ok {
+						return v, true
+					}
+				} else if v, ok := refs[c.i][refNormalize(p)]; ok {
+					return v, true
+				}
+			}
+			return "", false
+		}
+		out := sx.L()
+		fail := ""
+		for _, op := range cmd.Xs[3:] {
+			switch op.Xs[0].A {
+			case "set":
+				i := atoi(op.Xs[1].A)
+				ims[i].Set(string(op.Xs[2].B), string(op.Xs[3].B))
+				refs[i][refNormalize(string(op.Xs[2].B))] = string(op.Xs[3].B)
+				out.Add(sx.A("ok"))
+			case "del":
+				i := atoi(op.Xs[1].A)
+				ims[i].Delete(string(op.Xs[2].B))
+				delete(refs[i], refNormalize(string(op.Xs[2].B)))
+				out.Add(sx.A("ok"))
+			case "add":
+				i, j := atoi(op.Xs[1].A), atoi(op.Xs[2].Xs[1].A)
+				if op.Xs[2].Xs[0].A == "multi" {
+					ms[i].AddLoaders(ms[j])
+					stacks[i] = append(stacks[i], child{true, j})
+				} else {
+					ms[i].AddLoaders(ims[j])
+					stacks[i] = append(stacks[i], child{false, j})
+				}
+				out.Add(sx.A("ok"))
+			case "clear":
+				i := atoi(op.Xs[1].A)
+				ms[i].ClearLoaders()
+				stacks[i] = nil
+				out.Add(sx.A("ok"))
+			default:
+				m, p := atoi(op.Xs[1].A), string(op.Xs[2].B)
+				want, has := lookup(m, p)
+				if op.Xs[0].A == "exists" {
+					e := ms[m].Exists(p)
+					out.Add(sx.Bool(e))
+					if e != has && fail == "" {
+						fail = fmt.Sprintf("Multi#%d.Exists(%s) = %v, but walking its current stack finds the path: %v", m, p, e, has)
+					}
+				} else {
+					f, err := ms[m].Open(p)
+					if err != nil {
+						out.Add(sx.A("none"))
+						if has && fail == "" {
+							fail = fmt.Sprintf("Multi#%d.Open(%s) failed although a loader on its current stack has the path", m, p)
+						}
+					} else {
+						b, _ := io.ReadAll(f)
+						f.Close()
+						out.Add(sx.S(string(b)))
+						if (!has || string(b) != want) && fail == "" {
+							fail = fmt.Sprintf("Multi#%d.Open(%s) returned %q, the first loader on its current stack that has the path holds %q (exists=%v)", m, p, b, want, has)
 						}
 					}
 				}
